@@ -126,6 +126,15 @@ def self_subst_cases():
         if lang.well_typed(ind):
             out.append(ind)
             out.append(("R", "add", ("B", "add", ind, _T((q,), 81)), ((q, SZ),)))
+        # the fresh output name spelled like one of the two names the term binds
+        body = ("B", "mul", _T((p, "b") if p != "b" else (p,), 82), ("V", "d", "real", ()))
+        for rv, bv, dv in (("d", p, "d"), (p, p, "d")):
+            ind2 = ("Ind", body, rv, bv, dv)
+            if lang.well_typed(ind2):
+                out.append(ind2)
+                out.append(("B", "add", ind2, _T((q,), 83)))
+                t2 = lang.ty(ind2)
+                out.append(("S", ind2, ((rv, ("V", "z9", t2.inputs[rv][0], t2.inputs[rv][1])),)))
     return [e for e in out if lang.well_typed(e)]
 
 
@@ -141,7 +150,7 @@ def cases(tier):
         if k not in seen:
             seen.add(k)
             uniq.append(c)
-    for kind in ("integrate", "integrate-const-integrand", "approximate", "markov", "factory"):
+    for kind in ("integrate", "integrate-const-integrand", "approximate", "markov", "factory", "factory-bound-first"):
         for assign in itertools.product(NAMES, repeat=3):
             uniq.append(["X", kind, list(assign)])
     return uniq
@@ -304,6 +313,19 @@ def _x_build(kind, names, seed):
         x = A(dims, 96) * Variable("w", Real)
         with funsor.interpretations.lazy:
             t = SumOut(x, p)
+        return t
+    if kind == "factory-bound-first":
+        from funsor.factory import Bound, Fresh, make_funsor
+        from funsor.terms import Funsor
+
+        @make_funsor
+        def SumOutB(k: Bound, x: Funsor, y: Funsor) -> Fresh[lambda x: x]:
+            return (x * y).reduce(ops.add, k)
+
+        x = A(tuple(dict.fromkeys((p, u))), 99) * Variable("w", Real)
+        y = A(tuple(dict.fromkeys((p, v))), 100)
+        with funsor.interpretations.lazy:
+            t = SumOutB(p, x, y)
         return t
     raise ValueError(kind)
 
